@@ -98,8 +98,9 @@ def Ctx.thisUserSub (c : Ctx) (t : Topic) (a : Actor) (want : String) (priv : Pr
     | none => (c.emit a.sid (ctrl 500 rn), t, none)
     | some sub =>
     let given0 : Mode := match sub with | some s => s.given | none => modeUnset
-    let given := if given0 = modeUnset then t.accessFor a.lvl else given0
-    let wantM := if modeWant0 = modeUnset then t.accessFor a.lvl else modeWant0
+    -- ownership is never given by default nor requested by a new subscriber (topic.go:1575-1589)
+    let given := if given0 = modeUnset then t.accessFor a.lvl &&& ~~~modeOwner else given0
+    let wantM := (if modeWant0 = modeUnset then t.accessFor a.lvl else modeWant0) &&& ~~~modeOwner
     if !isJoiner given then (c.emit a.sid (ctrl 403 rn), t, none) else
     let privTok : Tok := match priv with | .val s => some s | _ => none
     let ud : PUD := { want := wantM, given := given, priv := privTok }
@@ -139,7 +140,10 @@ def Ctx.thisUserSub (c : Ctx) (t : Topic) (a : Actor) (want : String) (priv : Pr
     | .ok (ud, modeWant, ownerChange) =>
     let ud :=
       if modeWant = modeUnset then
-        (if !isJoiner oldWant then { ud with want := ud.given ||| t.accessFor a.lvl } else ud)
+        -- un-self-ban: no worse than the default; ownership is not picked up this way unless the user is the owner
+        (if !isJoiner oldWant then
+          { ud with want := if t.owner ≠ a.uid then (ud.given ||| t.accessFor a.lvl) &&& ~~~modeOwner else ud.given ||| t.accessFor a.lvl }
+         else ud)
       else if ud.want ≠ modeWant then { ud with want := modeWant } else ud
     -- private
     let (ud, privUpd) : PUD × Bool := match priv with
@@ -199,20 +203,20 @@ def Ctx.anotherUserSub (c : Ctx) (t : Topic) (a : Actor) (target : Uid) (mode : 
   match t.pud? target with
   | none =>
     if t.perUser.length ≥ c.w.maxSubs then (c.emit a.sid (ctrl 422 tn), t, none) else
-    let modeGiven := if modeGiven0 = modeUnset then (t.accessFor .auth) ||| modeJoin else modeGiven0
+    let modeGiven := if modeGiven0 = modeUnset then ((t.accessFor .auth) &&& ~~~modeOwner) ||| modeJoin else modeGiven0
     let (c, got) := c.subsGet tn target true
     match got with
     | none => (c.emit a.sid (ctrl 500 tn), t, none)
     | some sub =>
     -- the invitee's requested mode: the previous one, or the user's default limited by the grant
     let res : Ctx × Option Mode := match sub with
-      | some s => (c, some s.want)
+      | some s => (c, some (s.want &&& ~~~modeOwner))
       | none =>
         let (c, ok) := c.call "UserGet"
         if !ok then (c.emit a.sid (ctrl 500 tn), none) else
         match c.w.user? target with
         | none => (c.emit a.sid (ctrl 404 tn), none)
-        | some u => if u.suspended then (c.emit a.sid (ctrl 403 tn), none) else (c, some (u.auth &&& modeGiven))
+        | some u => if u.suspended then (c.emit a.sid (ctrl 403 tn), none) else (c, some (u.auth &&& modeGiven &&& ~~~modeOwner))
     match res with
     | (c, none) => (c, t, none)
     | (c, some modeWant) =>
